@@ -279,6 +279,24 @@ class Session:
         self.log.append(op)
         return out
 
+    def raw_getter(self, op):
+        """The raw container a getter returns (for monitors that check it is the caller's own copy)."""
+        tgt = self.target(op)
+        via_h = op.get("via") == "h"
+        m = op.get("m") if not via_h else None
+        k = op["op"]
+        with quiet_stdout():
+            if k == "get_measurements":
+                return self.db.get_measurements()
+            if k in ("get_tag_keys", "get_field_keys", "get_timestamps"):
+                return getattr(tgt, k)() if via_h else getattr(tgt, k)(m or None)
+            if k == "get_field_values":
+                return tgt.get_field_values(op["key"]) if via_h else tgt.get_field_values(op["key"], m or None)
+            if k == "get_tag_values":
+                keys = list(op.get("keys") or [])
+                return tgt.get_tag_values(keys) if via_h else tgt.get_tag_values(keys, m or None)
+        return None
+
     def _call(self, fn, *a, **kw):
         try:
             return fn(*a, **kw)
